@@ -328,6 +328,10 @@ static void registerAll() {
     reg("GEOSPolygonize_full_r", "g _ _ _", "constr", 2, [](Ctx& c, std::vector<Val>& a) {
         GEOSGeometry *cu = nullptr, *da = nullptr, *inv = nullptr; Ret x = rGeom(GEOSPolygonize_full_r(H, c.G(A(0)), &cu, &da, &inv));
         if (cu) x.objs.push_back({GEOM, cu}); if (da) x.objs.push_back({GEOM, da}); if (inv) x.objs.push_back({GEOM, inv}); return x; });
+    // ---- coverages (the documentation asks for a collection of polygonal members; any geometry is passed)
+    reg("GEOSCoverageIsValid_r", "g d _", "pred", 2, [](Ctx& c, std::vector<Val>& a) {
+        GEOSGeometry* inv = nullptr; Ret x = rInt(GEOSCoverageIsValid_r(H, c.G(A(0)), A(1).d, &inv)); if (inv) x.objs.push_back({GEOM, inv}); return x; });
+    reg("GEOSCoverageSimplifyVW_r", "g d i", "constr", 2, [](Ctx& c, std::vector<Val>& a) { return rGeom(GEOSCoverageSimplifyVW_r(H, c.G(A(0)), A(1).d, (int) A(2).i)); });
     // ---- binary constructive
 #define BIN(f, w) reg(#f, "g g", "constr", w, [](Ctx& c, std::vector<Val>& a) { return rGeom(f(H, c.G(A(0)), c.G(A(1)))); });
     BIN(GEOSIntersection_r, 4) BIN(GEOSDifference_r, 3) BIN(GEOSSymDifference_r, 3) BIN(GEOSUnion_r, 4) BIN(GEOSSharedPaths_r, 2)
@@ -412,6 +416,13 @@ static void registerAll() {
     reg("GEOSCoordSeq_copyToBuffer_r", "cs _ i i", "cs", 1, [](Ctx& c, std::vector<Val>& a) {
         unsigned n = 0; GEOSCoordSeq_getSize_r(H, c.S(A(0)), &n); std::vector<double> buf((size_t) n * 4 + 4);
         return rInt(GEOSCoordSeq_copyToBuffer_r(H, c.S(A(0)), buf.data(), (int) (A(2).i & 1), (int) (A(3).i & 1))); });
+    // x / y / z / m arrays: the double buffer is cut into four equal parts; z and m are passed or NULL by the two low bits of the point count
+    reg("GEOSCoordSeq_copyFromArrays_r", "s:dbl _ _ _ _", "cs", 2, [](Ctx& c, std::vector<Val>& a) {
+        size_t n = (A(0).s.size() / 8) / 4; const double* b = (const double*) A(0).s.data();
+        return rPtr(CS, GEOSCoordSeq_copyFromArrays_r(H, b, b + n, (n & 1) ? b + 2 * n : nullptr, (n & 2) ? b + 3 * n : nullptr, (unsigned) n)); });
+    reg("GEOSCoordSeq_copyToArrays_r", "cs _ _ _ _", "cs", 1, [](Ctx& c, std::vector<Val>& a) {
+        unsigned n = 0; GEOSCoordSeq_getSize_r(H, c.S(A(0)), &n); std::vector<double> x(n + 1), y(n + 1), z(n + 1), m(n + 1);
+        return rInt(GEOSCoordSeq_copyToArrays_r(H, c.S(A(0)), x.data(), y.data(), (n & 1) ? z.data() : nullptr, (n & 2) ? m.data() : nullptr)); });
     // ---- prepared geometries
     reg("GEOSPrepare_r", "gR", "prep", 6, [](Ctx& c, std::vector<Val>& a) { return rPtr(PREP, (void*) GEOSPrepare_r(H, c.G(A(0)))); });
     reg("GEOSPreparedGeom_destroy_r", "prepX", "destroy", 2, [](Ctx& c, std::vector<Val>& a) { GEOSPreparedGeom_destroy_r(H, (const GEOSPreparedGeometry*) c.P(A(0))); return rVoid(); });
